@@ -27,7 +27,7 @@ import (
 // is in sync, and no reference to an undefined symbol.
 
 // operand kinds of the sweep
-var shapeKinds = []string{"r8", "r16", "r32", "sreg", "creg", "imm", "immbig", "immneg", "mem", "m8", "m16", "m32", "abs", "label", "undef", "str", "far", "dollar", "fwdequ"}
+var shapeKinds = []string{"r8", "r16", "r32", "sreg", "creg", "imm", "immbig", "immneg", "mem", "m8", "m16", "m32", "abs", "label", "undef", "str", "far", "dollar", "fwdequ", "undefg", "mlabel", "mundef"}
 
 type ShapeOp struct {
 	Kind string      `json:"k"`
@@ -74,6 +74,15 @@ func shapeOperand(kind string, variant int) sem.Operand {
 		return sem.L("qdef")
 	case "undef":
 		return sem.L(pick([]string{"qundefined", "_nosuch"}))
+	case "mlabel":
+		// a defined label as the address of a memory operand
+		return sem.M(sem.Mem{Size: pick([]string{"", "BYTE", "WORD", "DWORD"}), Text: "qdef"})
+	case "mundef":
+		// an undefined symbol as the address of a memory operand
+		return sem.M(sem.Mem{Size: pick([]string{"", "WORD", "BYTE", "DWORD"}), Text: pick([]string{"qundefined", "_nosuch"})})
+	case "undefg":
+		// a symbol that is declared GLOBAL but defined nowhere (in a flat binary nothing can resolve it later)
+		return sem.L("_qglobonly")
 	case "fwdequ":
 		// a name that is defined only later, and only by an EQU whose value is label-relative
 		return sem.L("qfwdequ")
@@ -109,6 +118,12 @@ func (c *ShapeCase) header() string {
 func (c *ShapeCase) source(withStmt bool) string {
 	var sb strings.Builder
 	sb.WriteString(c.header())
+	for _, o := range c.Ops {
+		if o.Kind == "undefg" {
+			sb.WriteString("\tGLOBAL _qglobonly\n") // also in the baseline: the declaration alone prints its own warning
+			break
+		}
+	}
 	fmt.Fprintf(&sb, "qdef:\n\t%s\n\tMOV AX,1\n\t%s\n", markerText(1), markerText(2))
 	if withStmt {
 		fmt.Fprintf(&sb, "\t%s\n", c.stmtText())
@@ -191,8 +206,11 @@ func checkC07(c ShapeCase) Verdict {
 	sb := out[o2+6 : o3]
 	// (4) undefined symbols must be diagnosed
 	for _, o := range c.Ops {
-		if o.Kind == "undef" {
+		if o.Kind == "undef" || o.Kind == "undefg" {
 			return fail("undef", "it refers to the undefined symbol %s", o.Op.Text)
+		}
+		if o.Kind == "mundef" {
+			return fail("undef", "it refers to the undefined symbol %s (as an address)", o.Op.Mem.Text)
 		}
 	}
 	// (3) the label after it is in sync
@@ -315,6 +333,13 @@ func checkC07(c ShapeCase) Verdict {
 			stx.Ops = append(stx.Ops, sem.IT(here, "$"))
 		case "str":
 			return fail("str-operand", "a string operand was accepted by %s", c.Mn)
+		case "mlabel":
+			m := *o.Op.Mem
+			m.Disp, m.HasDisp, m.Text = defAddr, true, ""
+			if mode == 16 {
+				m.Disp &= 0xffff
+			}
+			stx.Ops = append(stx.Ops, sem.M(m))
 		default:
 			stx.Ops = append(stx.Ops, o.Op)
 		}
@@ -335,7 +360,9 @@ func checkC07(c ShapeCase) Verdict {
 			if k == "imm" || k == "immbig" || k == "immneg" || k == "label" || k == "dollar" || k == "fwdequ" {
 				return fail("form", "its bytes decode as %q, not as a relative branch", x86asm.IntelSyntax(inst, 0, nil))
 			}
-			stx.Ops = []sem.Operand{c.Ops[0].Op}
+			if k != "mlabel" {
+				stx.Ops = []sem.Operand{c.Ops[0].Op}
+			}
 			if m := sem.CompareInst(stx, mode, inst); m != nil {
 				return fail(m.Kind, "%s", m.Detail)
 			}
@@ -393,7 +420,7 @@ func mkShape(mode int, mn string, kinds []string, variant int) ShapeCase {
 
 var propC07 = &Prop[ShapeCase]{
 	ID:   "C07",
-	Rule: "every mnemonic of the grammar's Opcode list x operand lists of 0..3 operands of every kind (r8/r16/r32, Sreg, CRn, small/large/negative immediate, typed/untyped/absolute memory, defined label, undefined symbol, string, far pointer, $), sandwiched between correct statements with a marked label after; oracle: not diagnosed => bytes present, decode completely to the written instruction (or equal the data reference), label after in sync, no undefined symbol, operand count as the mnemonic requires; non-trivial = accepted without diagnostic (the interesting half; diagnosed cases are counted apart); distinct by (mode, statement)",
+	Rule: "every mnemonic of the grammar's Opcode list x operand lists of 0..3 operands of every kind (r8/r16/r32, Sreg, CRn, small/large/negative immediate, typed/untyped/absolute memory, defined label, undefined symbol, symbol declared GLOBAL but never defined, defined label / undefined symbol as the address of a memory operand, string, far pointer, $), sandwiched between correct statements with a marked label after; oracle: not diagnosed => bytes present, decode completely to the written instruction (or equal the data reference), label after in sync, no undefined symbol, operand count as the mnemonic requires; non-trivial = accepted without diagnostic (the interesting half; diagnosed cases are counted apart); distinct by (mode, statement)",
 	Gen: func(t *rapid.T) ShapeCase {
 		ops := GrammarOpcodes()
 		var mn string
